@@ -791,6 +791,13 @@ def _ctx_kind(ctx):
     return k
 
 
+def _ctx_first(ctx):
+    k = ctx[0]
+    if isinstance(k, str):      # plain-data mode hands out member names
+        k = HVKind[k]
+    return k
+
+
 def _ctx_up_kind(ctx):
     """From a field of a template that is an entry of a collection that is a member of the template defining `kind`:
     entry template -> collection -> defining template."""
@@ -1001,7 +1008,7 @@ class ProgramGen:
         d = depth + 1
         choices = ["tuple", "template", "collection_prefixed", "collection_fixed", "enum_switch", "flag_switch",
                    "typed_bytearray", "typed_fixed", "typed_terminated", "dict", "multidict", "dataclass", "forward",
-                   "ctx_template", "adapter_dataclass"]
+                   "ctx_template", "adapter_dataclass", "ctx_tuple"]
         if not no_none:
             choices += ["optional_prefixed"]
         if allow_greedy:
@@ -1021,6 +1028,15 @@ class ProgramGen:
             return se.Template(members)
         if c == "ctx_template":
             return self.ctx_template(d, allow_greedy)
+        if c == "ctx_tuple":
+            # a tuple whose later members are chosen by its FIRST member (read through the tuple's own context level, by index)
+            STATS["tuples_with_members_chosen_by_their_first_member"] = STATS.get("tuples_with_members_chosen_by_their_first_member", 0) + 1
+            return se.Tuple(
+                se.IntEnum(HVKind, se.U8, strict=True),
+                se.ContextSwitch(_ctx_first, {HVKind.A: self.make(d, allow_greedy=False), HVKind.B: self.make(d, allow_greedy=False),
+                                              se.MISSING: self.make(d, allow_greedy=False)}),
+                se.ContextAdapter(_ctx_first, se.U16, {HVKind.A: se.ExprAdapter(None, lambda x: x + 1, lambda x: x - 1),
+                                                        HVKind.B: se.BoolAdapter(), HVKind.C: se.ExprAdapter(None)}))
         if c == "collection_prefixed":
             return se.Collection(rng.choice([se.U8, se.U16, se.U32]), self.make(d, allow_greedy=False))
         if c == "collection_fixed":
